@@ -244,6 +244,10 @@ def check_C06(tier, seed, t0):
                              'SmallSet tapes on ledger allocators (std::set nodes and FlatSet buffers); non-trivial = >=5 mutating ops crossing the N boundary', False))
     parts.append(interp_part('C06', 'flatset_histories', fs_jobs(fsn, cases, maxlen), seed,
                              'FlatSet tapes on ledger allocators; non-trivial = >=5 mutating ops with a vector hand-over (FlatSet(vector&&), operator=(vector&&), steal_vector) or a range longer than 16', False))
+    parts.append(enum_part('C06', 'allocator_reallocate_grid', [enum_unit('alloc_c06', 'targets/alloc_c06.cpp')], seed, tier,
+                           'amc::allocator<T>::reallocate (real malloc/realloc and over the ledger) for T in {int, TC, TR, NTR}: old capacity 0..12 x new capacity '
+                           '1..14 x live count 0..min(old,new): live elements preserved (values, identities, exactly `live` objects alive), block handed back with the '
+                           'new count; non-trivial = >=2 live elements and a capacity change', crash_is_violation=True))
     parts += fuzz_parts('C06', tier, seed, ('vec', 'fs', 'ss'), False)
     return finish('C06', tier, seed, 'exploration', parts, VEC_RULES['C06'], ASSUME_COMMON + ['all allocator instances compare equal'], t0)
 
@@ -280,7 +284,7 @@ C08_GRID_RULE = ('grid at the limit: FixedCapacityVector N in {1,2,3,7,15} sizes
 def check_C08(tier, seed, t0):
     cases, maxlen = budget(tier, (30000, 50), (300000, 60))
     names = C.vec_subset(C.is_8bit)
-    parts = [enum_part('C08', 'exhaustive_grid', [enum_unit('exh_c08', 'targets/exh_c08.cpp'), enum_unit('static_c14', 'targets/static_c14.cpp')], seed, tier, C08_GRID_RULE, shards=12),
+    parts = [enum_part('C08', 'exhaustive_grid', [enum_unit('exh_c08', 'targets/exh_c08.cpp'), enum_unit('static_c14', 'targets/static_c14.cpp'), enum_unit('alloc_c06', 'targets/alloc_c06.cpp')], seed, tier, C08_GRID_RULE, shards=12),
              interp_part('C08', 'vector_histories', vec_jobs(names, cases, maxlen), seed, VEC_RULES['C08'], True, crash_class_codes=[44, 32])]
     parts[1].coverage['exhaustive'] = False
     return finish('C08', tier, seed, 'exploration', parts, C08_GRID_RULE + ' || histories: ' + VEC_RULES['C08'], ASSUME_COMMON, t0)
@@ -332,7 +336,7 @@ def check_C14(tier, seed, t0):
                              'FlatSet-backed SmallSet tapes with RELOCATE; non-trivial = relocation followed by >=3 mutating ops', True, crash_class_codes=[28]))
     parts.append(interp_part('C14', 'flatset_histories', fs_jobs(fsn, cases, maxlen), seed,
                              'FlatSet tapes with RELOCATE; non-trivial = relocation followed by >=3 mutating ops', True, crash_class_codes=[29]))
-    parts.append(enum_part('C14', 'static_trait_table', [enum_unit('static_c14', 'targets/static_c14.cpp')], seed, tier,
+    parts.append(enum_part('C14', 'static_trait_table', [enum_unit('static_c14', 'targets/static_c14.cpp'), enum_unit('alloc_c06', 'targets/alloc_c06.cpp')], seed, tier,
                            'converse part: 13 element types (incl. std::string, opted-out, nested pairs) x 5 comparators (std::less, trivially copyable with state, '
                            'declared relocatable, self-pointing, std::function): the trait of the element/comparator and the claim of vector, SmallVector, '
                            'FixedCapacityVector, FlatSet over vector/SmallVector, SmallSet over FlatSet/std::set against values written down per part'))
@@ -554,7 +558,7 @@ def check_C17(tier, seed, t0, only=None):
     cov = {'evaluations': r['evaluated'], 'distinct_nontrivial': nt * nstd if not r['bad'] else nt * nstd, 'rule': C17_RULE, 'samples': samples,
            'rows_per_standard': len(r['rows']), 'standards': r['stds'], 'mismatches': len(r['bad']), 'exhaustive': False}
     part = Part('static_matrix', cov, viol, r['wall'])
-    part2 = enum_part('C17', 'comparator_and_pair_trait_table', [enum_unit('static_c14', 'targets/static_c14.cpp')], seed, tier,
+    part2 = enum_part('C17', 'comparator_and_pair_trait_table', [enum_unit('static_c14', 'targets/static_c14.cpp'), enum_unit('alloc_c06', 'targets/alloc_c06.cpp')], seed, tier,
                       'trait table over element types x comparator types (see C14 static part): each container typedef is the conjunction of its parts')
     part2.coverage['exhaustive'] = False
     return finish('C17', tier, seed, 'exploration', [part, part2], C17_RULE,
@@ -629,7 +633,7 @@ def all_units():
         us += [vec_unit(n, s) for n in C.VEC_MULTISTD]
     us += [fs_unit(n) for n, _ in C.FS_CONFIGS]
     us += [fault_unit(n) for n, _ in FAULT_CONFIGS]
-    us += c15_units() + [race_unit()] + c13_units() + bfs_units() + [enum_unit('exh_c10', 'targets/exh_c10.cpp'), enum_unit('exh_c08', 'targets/exh_c08.cpp'), enum_unit('static_c14', 'targets/static_c14.cpp')]
+    us += c15_units() + [race_unit()] + c13_units() + bfs_units() + [enum_unit('exh_c10', 'targets/exh_c10.cpp'), enum_unit('exh_c08', 'targets/exh_c08.cpp'), enum_unit('static_c14', 'targets/static_c14.cpp'), enum_unit('alloc_c06', 'targets/alloc_c06.cpp')]
     from . import c16
     us += [c16.unit(cfg, b) for cfg in c16.VEC + c16.FS + c16.SS for b in c16.QUICK_BUILDS if not (cfg in c16.SS and b[0] in ('11', '14'))]
     us += [enum_unit('exh_c12', 'targets/exh_c12.cpp'), enum_unit('growth_c18', 'targets/growth_c18.cpp', kind='plain'),
